@@ -30,8 +30,9 @@ CLAIMED = {
          "entries; truncation leaves k-1 entries unchanged and the k-th equal or 0 when the total exceeds N t; every shipped estimator/bet entry j "
          "is a function of x_0..x_{j-1}. Unbounded in n via induction lemmas on ghost running sums/products.",
          "exact-real float model; numpy axioms; estimator interface for the abstract-estimator runs proved per shipped estimator", "§4.C05"),
- "C06": ("other", "Range 0 <= B <= 2/(2-v/u) and u proved per symbolic pair; mvrs_to_data filter, order and u proved for lists of <= 3 symbolic "
-         "(MVR,CVR) pairs (all presence patterns); set_p_values proved to install u before each test call for bounded contest/assertion shapes; "
+ "C06": ("other", "Range 0 <= B <= 2/(2-v/u) and u proved per symbolic pair; mvrs_to_data proved for an UNBOUNDED number of sampled cards (symbolic record "
+         "lists: a card contributes iff no style information or its CVR lists the contest and its sample number is within the threshold; each "
+         "value = B(mvr_i, cvr_i) in [0,u]; polling: assort(mvr_i) in [0,u_assorter]) and, kept, for lists of <= 3 symbolic pairs (all presence patterns); set_p_values proved to install u before each test call for bounded contest/assertion shapes; "
          "IRV assorter values in {0,1/2,1} (C14 scripts).", "list length and contest/assertion shapes bounded", "§4.C06"),
  "C07": ('other', "UNBOUNDED (symbolic number of cards, 2 contests): consistent_sampling's while loop proved by an inductive invariant on the real body "
          "(per-contest count = min(n_c, cards of c so far), threshold = sample number of c's n_c-th card, the p-th selected card is the p-th card "
@@ -49,8 +50,11 @@ CLAIMED = {
          'contests fixed at 2; input records are real CVRs (phantom=False); str(int) injective', '§4.C08'),
  "C09": ("other", "set_p_values / summarize_status / reset_p_values proved for every symbolic p-value, risk limit and proved-flag over bounded shapes "
          "(1-3 contests x 1-2 assertions).", "shapes bounded", "§4.C09"),
- "C10": ("other", "Bounded stand-in: two rounds with every pair of size vectors n <= n' on <= 4-5 cards, redraw and continue variants; p-value "
-         "monotonicity follows from C05/C11 (proved). Known finding K5 (continuation).", "bounded only", "§4.C10"),
+ "C10": ("other", "Lemmas over the consistent_sampling contract (which the loop-invariant script proves of the real code), unbounded: with sizes n <= n' every "
+         "card selected before is selected again, every contest's old observations are a prefix (in sample-number order) of its new ones, and the "
+         "threshold filter keeps exactly the contest's first n_c cards; data extended => history extended (C05 obligations, proved). Bounded "
+         "stand-in: two rounds with every pair of size vectors n <= n' on <= 4-5 cards, redraw and continue variants, p-values over rounds. "
+         "Known finding K5 (continuation).", "continuation and multi-round p-values bounded", "§4.C10"),
  "C11": ("proof", "For symbolic n, N, u, t, parameters: history length n, every entry in [0,1] and not NaN, p in [0,1], p = min history (random order) "
          "or last entry, for alpha/betting (under the estimator/bet interface), Kaplan-Markov, Kaplan-Wald, Kaplan-Kolmogorov (padded regime), SPRT "
          "(inside regime); known findings K1,K3,K4,K9 recorded with replayed witnesses.",
